@@ -147,6 +147,39 @@ def _load_order(ctx, loader):
                construct='%s before %s' % (early, late))
 
 
+def _roles(func):
+    """Locals of restore_placement by what they are bound to, not by their
+    spelling: the listing of recorded instances, the stored record of one
+    instance, the recorded identity, the result of the placement."""
+    defs = M.local_defs(func)
+    listing, records, results = set(), set(), set()
+    for sub in K.walk_no_nested(func.node):
+        if not isinstance(sub, ast.Assign) or len(sub.targets) != 1:
+            continue
+        tgt, val = sub.targets[0], sub.value
+        if isinstance(tgt, ast.Name) and isinstance(val, ast.Call):
+            if K.is_meth(val, 'get_placed_apps'):
+                listing.add(tgt.id)
+            if K.is_meth(val, 'restore', 'put') and \
+                    not (K.recv_text(val) or '').endswith('backend'):
+                results.add(tgt.id)
+        if isinstance(tgt, ast.Tuple) and len(tgt.elts) == 2 and \
+                isinstance(val, ast.Call) and \
+                K.is_meth(val, 'get_with_metadata') and val.args and \
+                M.is_record_path(val.args[0], defs) is not None:
+            records.add(N.txt(tgt.elts[0]))
+    identities = set(
+        name for name, vals in defs.items() for v in vals
+        if isinstance(v, ast.Call) and K.is_meth(v, 'get') and
+        K.recv_text(v) in records and v.args and
+        isinstance(v.args[0], ast.Constant) and
+        v.args[0].value == 'identity')
+    return {'listing': listing or {'placed_apps'},
+            'record': records or {'data'},
+            'identity': identities or {'identity'},
+            'result': results or {'restored'}}
+
+
 def _verbatim(ctx, loader):
     func = loader.methods.get('restore_placement')
     ctx.require(func is not None, 'Loader.restore_placement')
@@ -154,6 +187,7 @@ def _verbatim(ctx, loader):
     graph = ctx.cfg(func)
     facts = N.must_facts(graph, nz)
     defs = M.local_defs(func)
+    roles = _roles(func)
     restores = K.nodes_calling(graph, lambda c: K.is_meth(c, 'restore') and
                                len(c.args) == 2)
     if not restores:
@@ -188,7 +222,8 @@ def _verbatim(ctx, loader):
         def benign(f):
             return f in le or f in tr or \
                 (f.key[0] == 'in' and 'self.cell.apps' in f.key[2]) or \
-                (f.key[0] == 'truth' and f.key[1] == 'placed_apps') or \
+                (f.key[0] == 'truth' and
+                 f.key[1] in roles['listing']) or \
                 (f.key[0] == 'is' and 'allocation' in f.key[1])
         # a condition held in a local is judged by what the local stands for
         extra = [N.show(f) for f in mine if not benign(f) and not any(
@@ -199,7 +234,11 @@ def _verbatim(ctx, loader):
                '`presence_time and presence_time <= placement_time`%s' % (
                    ' - extra conditions: %s' % extra if extra else ''))
         exp = N.txt(defs.get(N.txt(call.args[1]), [call.args[1]])[0])
-        ctx.ob('C11.2', func, node, "data.get('expires'" in exp,
+        if ".get('expires'" not in exp:
+            exp = K.rtxt(func, call.args[1])
+        ctx.ob('C11.2', func, node, any(
+            "%s.get('expires'" % rec in exp or "%s['expires']" % rec in exp
+            for rec in roles['record']),
                'with the recorded expiry (%s)' % exp,
                construct='verbatim restore value')
     # presence_time / placement_time definitions
@@ -344,10 +383,12 @@ def _keys_and_identity(ctx, loader, master, func, graph, facts):
     for sub in K.walk_no_nested(pdata.node):
         if isinstance(sub, ast.Return) and isinstance(sub.value, ast.Dict):
             written = set(k.value for k in sub.value.keys)
+    roles = _roles(func)
+    defs = M.local_defs(func)
     read = set()
     for sub in K.walk_no_nested(func.node):
         if isinstance(sub, ast.Call) and K.is_meth(sub, 'get') and \
-                K.recv_text(sub) == 'data' and sub.args and \
+                K.recv_text(sub) in roles['record'] and sub.args and \
                 isinstance(sub.args[0], ast.Constant):
             read.add(sub.args[0].value)
     ctx.ob('C11.3', func, None, {'expires', 'identity'} <= read and
@@ -361,11 +402,11 @@ def _keys_and_identity(ctx, loader, master, func, graph, facts):
     for node, call in forces:
         fs = N.raw_only(facts[node])
         ok_restored = any(f.key[0] == 'truth' and f.key[2] and
-                          f.key[1] == 'restored' for f in fs)
+                          f.key[1] in roles['result'] for f in fs)
         ok_flag = any(f.key[0] == 'truth' and f.key[2] and
-                      f.key[1] == 'restore_identity' for f in fs)
+                      f.key[1] == func.params()[2] for f in fs)
         ok_some = any(f.key[0] == 'is' and not f.key[3] and
-                      f.key[1] == 'identity' for f in fs)
+                      f.key[1] in roles['identity'] for f in fs)
         extra = [N.show(f) for f in fs if f.mentions & {'server', 'app'}
                  and not (f.key[0] == 'is' and 'allocation' in f.key[1])]
         ctx.ob('C11.4', func, node, ok_restored and ok_flag and ok_some and
@@ -373,13 +414,16 @@ def _keys_and_identity(ctx, loader, master, func, graph, facts):
                'identity forced exactly for a restored instance, when '
                'restore_identity and an identity was recorded (facts: %s)'
                % sorted(N.show(f) for f in fs))
-        ctx.ob('C11.4', func, node, N.txt(call.args[0]) == 'identity',
+        ctx.ob('C11.4', func, node,
+               N.txt(call.args[0]) in roles['identity'] or any(
+                   K.rtxt(func, call.args[0]) == "%s.get('identity')" % rec
+                   for rec in roles['record']),
                'the identity forced is the recorded one',
                construct='forced value')
     forced_identity(ctx)
     # a failed restore deletes the record
     tests = [n for n in graph.nodes if n.kind == 'test' and
-             N.txt(n.ast) == 'restored']
+             N.txt(n.ast) in roles['result']]
     ctx.require(tests, 'test of the restore result')
     for test in tests:
         for edge in test.succ:
@@ -389,7 +433,7 @@ def _keys_and_identity(ctx, loader, master, func, graph, facts):
 
             def deletes(node):
                 return any(K.is_meth(c, 'delete') and c.args and
-                           N.txt(c.args[0]) == 'appnode'
+                           M.is_record_path(c.args[0], defs) is not None
                            for c in C.node_calls(node))
             path = K.find_path_cp(
                 graph, test, [loop, graph.exit], cut_node=deletes,
